@@ -59,9 +59,11 @@ def displayArm (d : EnumDef) (v : Variant) : Except NameErr NameArm :=
     | .ok used =>
       match v.fields with
       | .named fs =>
-        if used.all isIdentLike then
+        -- each captured name is re-parsed with `syn::parse_str::<Ident>`, which skips leading whitespace
+        let idents := used.map (fun u => u.dropWhile isAsciiWs)
+        if idents.all isIdentLike then
           if used.isEmpty then .ok (.fixed name)
-          else .ok (.interp name ((fs.map (·.1)).filter (fun f => used.contains f)))
+          else .ok (.interp name ((fs.map (·.1)).filter (fun f => idents.contains f)))
         else .error .badIdent
       | .tuple n =>
         if used.any (·.isEmpty) then .error .emptyPlaceholder
